@@ -4,7 +4,7 @@ import re
 import traceback
 
 from vlib import corpus, relsum
-from vlib.core import sighash
+from vlib.core import sighash, CaseTimeout
 from vlib.fgenlab import ProgGen
 from vlib.hostilegen import HostileGen, pick_flags, RISKY_FLAGS
 
@@ -190,6 +190,8 @@ def run_case(idx, rng, tier, ctx):
     try:
         fp = Sourcefile.from_source(text, frontend=FP)
         fs = relsum.summarize_sourcefile(fp)
+    except CaseTimeout:
+        raise
     except Exception as e:
         cnt['fp_parse_failures'] = 1
         res['features'].append('fp-exception-' + type(e).__name__)
@@ -208,6 +210,8 @@ def run_case(idx, rng, tier, ctx):
     try:
         rx = Sourcefile.from_source(text, frontend=REGEX)
         rs = relsum.summarize_sourcefile(rx)
+    except CaseTimeout:
+        raise
     except Exception as e:
         kind = type(e).__name__ + ('-timeout' if 'timeout' in str(e) else '')
         key = f'regex:exception:{kind}:{attribution(src)}'
@@ -237,6 +241,8 @@ def run_case(idx, rng, tier, ctx):
     for h in range(nhist):
         try:
             hd, inter, log, nsteps, no_pu_first = run_history(text, rng, rs, check_intermediate=True)
+        except CaseTimeout:
+            raise
         except Exception as e:
             kind = type(e).__name__ + ('-timeout' if 'timeout' in str(e) else '')
             hkey = f'regex:history-exception:{kind}:{attribution(src)}'
